@@ -371,8 +371,10 @@ def run_unit(unit):
                     c.cat("both_horizontal_nonzero")
                 else:
                     c.cat("one_horizontal_zero")
-        c.sample({"spectrum": skey, "fs": fs, "n": lengths[4], "component": "z", "seed": 1,
-                  "reference_variance": reference(fgrid, e, fs, lengths[4], dtheta, theta)["z"][0]})
+        rs = reference(fgrid, e, fs, lengths[4], dtheta, theta)
+        if rs["z"][0] > 0:
+            c.sample({"spectrum": skey, "fs": fs, "n": lengths[4], "component": "z", "seeds": seeds,
+                      "reference_variance_z": rs["z"][0], "reference_variance_w": rs["w"][0], "df": rs["df"]})
     return c.result()
 
 
